@@ -297,11 +297,12 @@ End RT.
 (* ------------------------------------------------------------------------------------------ *)
 
 (* the side condition on the configuration: diagnostics off; the options that rewrite a serialization
-   (percent-encoding of single '%', collapsing of slashes) off; "file" is special; the encode sets contain
+   (percent-encoding of single '%', collapsing of slashes, a host pre-processing function) off; "file" is special; the encode sets contain
    the blanks (so that a serialization has no trailing blank to be trimmed) and the delimiter that ends
    the component ('?' and '#' for paths, '#' for queries) *)
 Definition cfg_rt (c : cfg) : bool :=
   negb (c_report c) && negb (c_fail c) && negb (c_singlePct c) && negb (c_collapse c)
+  && match c_pre c with HF_none => true | _ => false end
   && isSpecialScheme c s_file
   && (33 <=? ab (c_pathSet c)) && (33 <=? ab (c_squerySet c)) && (33 <=? ab (c_querySet c))
   && (33 <=? ab (c_sfragSet c)) && (33 <=? ab (c_fragSet c))
@@ -313,6 +314,7 @@ Record CfgRT (c : cfg) : Prop := {
   R_fail : c_fail c = false;
   R_sp : c_singlePct c = false;
   R_col : c_collapse c = false;
+  R_pre : c_pre c = HF_none;
   R_file : isSpecialScheme c s_file = true;
   R_path : (33 <=? ab (c_pathSet c)) = true;
   R_squery : (33 <=? ab (c_squerySet c)) = true;
@@ -330,7 +332,7 @@ Proof.
   unfold cfg_rt. intros H.
   repeat (apply andb_true_iff in H; let H' := fresh "H" in destruct H as [H H']).
   repeat match goal with X : negb _ = true |- _ => apply negb_true_iff in X end.
-  constructor; assumption.
+  constructor; try assumption. destruct (c_pre c); [reflexivity|discriminate|discriminate|discriminate].
 Qed.
 
 Example cfg_rt_default : cfg_rt default_cfg = true.
@@ -395,18 +397,11 @@ Fixpoint hbr (br : bool) (h : list N) : bool :=
   | r :: h' => hbr (if r =? 91 then true else if r =? 93 then false else br) h'
   end.
 
-Definition host_shape (c : cfg) (u : url) : bool :=
-  match u_host u with
-  | Some h => hscan (IsSpecialScheme c u) false h && negb (hbr false h) && negb (mem 64 h)
-  | None => true
-  end.
-
 Definition list_stable (c : cfg) (u : url) : bool :=
   forallb (fun s => negb (dotseg s)) (u_path u)
   && (negb (IsSpecialScheme c u) || forallb (fun s => negb (mem 92 s)) (u_path u))
   && (negb (str_eqb (u_scheme u) s_file)
-      || (drive_ok c u && negb (opt_eqb str_eqb (u_host u) (Some s_localhost))))
-  && host_shape c u.
+      || (drive_ok c u && negb (opt_eqb str_eqb (u_host u) (Some s_localhost)))).
 
 Definition dport_ok (u : url) : bool :=
   match u_port u with None => u_decodedPort u =? 0 | Some _ => true end.
